@@ -48,6 +48,15 @@ func exDigest(l *Log, ex int) string {
 	return fmt.Sprintf("%x", h.Sum(nil))
 }
 
+// fullDigest: the executor's event stream plus the canonical view of what its tracer
+// recorded (results, call tree, every journal query) - nothing recorded by one EVM may be
+// visible through another.
+func fullDigest(l *Log, ex int, e *SutEnv) string {
+	view, _ := canonEnv(e.Sc, e, 1)
+	h := sha256.Sum256([]byte(view))
+	return exDigest(l, ex) + fmt.Sprintf("%x", h[:8])
+}
+
 func cancelFault(sub *Scenario) *Fault {
 	for i := range sub.Faults {
 		if sub.Faults[i].Kind == "cancel" {
@@ -74,7 +83,7 @@ func soloDigest(sub *Scenario, i int) (string, *Log) {
 	e.Rec.Annot = annotFor(e)
 	e.RunAll()
 	drainSwallowed()
-	return exDigest(l, i), l
+	return fullDigest(l, i, e), l
 }
 
 func genSpinWorld(r *RNG, seed uint64) *Scenario {
@@ -200,7 +209,7 @@ func c17Run(sc *Scenario, st *Stats) []Violation {
 			}
 		}
 		if cancelFault(sc.Subs[i]) == nil {
-			if d := exDigest(l, i); d != solo[i] {
+			if d := fullDigest(l, i, e); d != solo[i] {
 				_, sl := soloDigest(sc.Subs[i], i)
 				add("C17.interference", "digest-differs", l.Len(), "executor %d run interleaved with %d others (%d context switches) differs from its solo run: %s", i, n-1, sched.Switches, firstEvDiff(sl, l, i))
 			}
@@ -319,7 +328,7 @@ func raceOne(sc *Scenario) []string {
 					pan[i] = r.Panic
 				}
 			}
-			got[i] = exDigest(l, i)
+			got[i] = fullDigest(l, i, e)
 		}()
 	}
 	wg.Wait()
